@@ -263,7 +263,14 @@ func (g *Gen) exprFor(c *ConsSpec, depth int) *Expr {
 		if !g.P.JSONTwin && g.chance(0.2) {
 			// a computed key behind the known ones: (ref), "k-${ref}" or a.b
 			var k *Expr
-			switch g.n(3) {
+			switch g.n(4) {
+			case 3:
+				// a constant in parentheses that happens to spell a declared name
+				nm := "x"
+				if len(c.Attrs) > 0 {
+					nm = c.Attrs[g.n(len(c.Attrs))].Name
+				}
+				k = &Expr{K: "paren", A: []*Expr{{K: "str", S: nm}}}
 			case 0:
 				k = &Expr{K: "paren", A: []*Expr{g.ref()}}
 			case 1:
